@@ -67,7 +67,10 @@ template <class S> static void c14(Rng& r, std::vector<std::string> names, int p
       if (rc != 0 || name != cbuf) hviol("C14", "c-get_name-differs:" + name, "C masa_get_name returned '" + std::string(cbuf).substr(0, 60) + "' after C masa_init(\"" + name + "\")");
     }
     if (o.fatal || o.abnormal) { hviol("C14", "listed-name-not-initialisable:" + name, "masa_init(\"" + name + "\") failed although masa_printid lists it"); continue; }
-    std::string got; masa_get_name<S>(&got);
+    std::string got;
+    const bool hop14 = r.below(3) == 0;
+    if (hop14) { WORKER.run([&] { CAP.begin(); masa_get_name<S>(&got); int d0; masa_get_dimension<S>(&d0); CAP.end(); }); LOG.count("calls_after_init_made_from_a_second_thread", 1); }
+    else masa_get_name<S>(&got);
     if (got != name) hviol("C14", "get_name-differs:" + name, "masa_get_name returned '" + got + "' after masa_init(\"" + name + "\")");
     LOG.distinct("entries_checked", name + "<" + P + ">");
     if (!sp) { LOG.distinct("entries_unknown_to_spec", name); continue; }
@@ -98,7 +101,7 @@ template <class S> static void c14(Rng& r, std::vector<std::string> names, int p
   }
 }
 
-static long g_repeat = 12000;
+static long g_repeat = 12000, n_persist = 0;
 template <class S> static void c15(Rng& r, const std::vector<std::string>& names, int part, int nparts) {
   const std::string P = ST<S>::name();
   Model<S> m;
@@ -121,7 +124,9 @@ template <class S> static void c15(Rng& r, const std::vector<std::string>& names
         // "at arbitrary arguments": the callback overloads also with a null function pointer (a stub never looks at it)
         const bool nullcb = e.kind == KF && k % 2 == 1;
         if (nullcb) { hist("  ... with a NULL callback"); LOG.count("unprovided_callback_evaluators_called_with_a_null_pointer", 1); }
-        CAP.begin(); S v = call_ev<S>(e, a, idx, nullcb ? (FP<S>) nullptr : cbK<S>()); std::string out = CAP.end();
+        S v; std::string out;
+        if (k == 2 && r.below(4) == 0) { WORKER.run([&] { CAP.begin(); v = call_ev<S>(e, a, idx, cbK<S>()); out = CAP.end(); }); LOG.count("stub_calls_made_from_a_second_thread", 1); }
+        else { CAP.begin(); v = call_ev<S>(e, a, idx, nullcb ? (FP<S>) nullptr : cbK<S>()); out = CAP.end(); }
         CNT.evals++;
         std::string det = JObj().str("solution", name).str("evaluator", e.id).str("precision", P).num("returned", (long double)v).str("stdout", out.substr(0, 160)).done();
         if (!biteq(v, sentinel<S>())) hviol("C15", "unprovided-evaluator-returned-a-value:" + name + ":" + e.id, "an evaluator the solution does not provide returned " + sval(v) + " instead of -1.33", det);
@@ -143,8 +148,10 @@ template <class S> static void c15(Rng& r, const std::vector<std::string>& names
       if (!un.empty()) {
         const Ev& e = api()[(size_t)un[(size_t)r.below((int)un.size())]];
         S a[4]; for (int i = 0; i < 4; i++) a[i] = (S)r.uni(-2.0L, 2.0L);
-        hist("masa_eval_" + e.id + "<" + P + "> on " + name + " [not provided] x " + std::to_string(g_repeat) + " in a row");
-        for (long k = 0; k < g_repeat; k++) {
+        // the first solution of every shard: a hundred times as many (beyond a million), cycling over several stubs
+        const long reps = (n_persist++ == 0) ? g_repeat * 100 : g_repeat;
+        hist("masa_eval_" + e.id + "<" + P + "> on " + name + " [not provided] x " + std::to_string(reps) + " in a row");
+        for (long k = 0; k < reps; k++) {
           CAP.begin(); S v = call_ev<S>(e, a, 1, cbK<S>()); std::string out = CAP.end();
           if (!biteq(v, sentinel<S>()) || out.find("MASA ERROR") == std::string::npos) {
             hviol("C15", "unprovided-evaluator-silent-after-repeats:" + name, "call number " + std::to_string(k + 1) + " in a row of an unprovided evaluator returned " + sval(v) + " and printed '" + out.substr(0, 60) + "'",
@@ -152,8 +159,8 @@ template <class S> static void c15(Rng& r, const std::vector<std::string>& names
             break;
           }
         }
-        CNT.evals += g_repeat;
-        LOG.count("consecutive_identical_stub_calls", g_repeat);
+        CNT.evals += reps;
+        LOG.count("consecutive_identical_stub_calls", reps);
       }
     }
   }
